@@ -87,7 +87,7 @@ BOUNDS = {
     "quick": {
         "a": "depth 1-2 complete: 129 node shapes x every shape in each of the 132 child slots, in 5 positions (<%page args>, def default, "
              "keyword-only def default, <%block args>, filter-call argument); 4 further filter-call argument kinds (k=E, *E, **E, mixed) at depth 1",
-        "b": "blocks <=2 statements depth <=2 over 11 of the 15 statement kinds; 21 of the 30 literal forms in every single hole; 27 layouts: "
+        "b": "blocks <=2 statements depth <=2 over 11 of the 15 statement kinds; 23 of the 58 literal forms in every single hole; 27 layouts: "
              "15 margins (LF, code on the next line, <% %> in the body) + 2 margins x 3 other positions + 6 first-line/CRLF/TAB-unit variants",
         "c": "44 expression binders (12 of them: a name bound inside a lambda body and read as a free name later in the same expression) x 22 positions (8 spellings of the nested def, 6 of the free name for the declaration-order dimension), "
              "41 statement binders x 4 positions, 10 control-line binders; read inside, own name read outside, leaked name read outside; "
@@ -96,8 +96,8 @@ BOUNDS = {
     "thorough": {
         "a": "quick + depth 3 complete over 62 slots x 62 slots of the operator subset x 55 representative shapes + depth-4 spines over "
              "12 slots x 4 leaves",
-        "b": "blocks <=2 statements over all 15 kinds and 30 forms: 15 margins x first-line x EOL in body/control positions, reduced in "
-             "<%! %>/def positions, + TAB/2-space units (174 layouts); blocks of 3 statements depth <=3: 21 forms in every hole x 8 layouts; "
+        "b": "blocks <=2 statements over all 15 kinds and 58 forms: 15 margins x first-line x EOL in body/control positions, reduced in "
+             "<%! %>/def positions, + TAB/2-space units (174 layouts); blocks of 3 statements depth <=3: 23 forms in every hole x 8 layouts; "
              "pairs of 15 forms in two holes of blocks <=2 statements x 23 layouts",
         "c": "as quick, plus every expression binder nested in 7 lambda/comprehension wrappers",
     },
@@ -755,6 +755,8 @@ def layouts(tier, level):
         return out
     if level == "std":
         for m in BL.MARGINS:
+            if m in (" " * 9, " " * 10, " " * 11):
+                continue  # quick: 9-11 spaces take the same path as 8 and 12; the thorough tier has them
             out.append((m, "    ", False, "\n", "body"))
         for m in ("    ", "\t"):
             for pos in POS[1:]:
@@ -790,7 +792,8 @@ def layouts(tier, level):
 QUICK_SKIP = {
     "dq-in-sq", "raw-string-backslash", "escaped-quote", "two-triples-one-line", "empty-triple", "four-quotes",
     "multiline-triple-with-hash", "comment-with-triple-dq", "triple-sq-chars-in-dq-string",
-}
+    "backslash-continued-dq-string-3-lines-hash-line", "backslash-continued-sq-string-4-lines-hash-lines",
+} | BL.THOROUGH_ONLY_FORMS
 
 
 PAIR_FORMS = {
